@@ -205,7 +205,7 @@ func init() {
 	}
 	propSpecs["C10"] = &PropSpec{
 		ID:       "C10",
-		Patterns: []string{"./internal/jsonschema", "./internal/openapi", "./internal/simplecue", "./internal/ast", "./internal/orderedmap", "./internal/tools"},
+		Patterns: []string{"./internal/jsonschema", "./internal/openapi", "./internal/simplecue", "./internal/ast", "./internal/ast/compiler", "./internal/orderedmap", "./internal/tools"},
 		Level:    "proof",
 		Prepare:  func(e *Engine) { e.assumeKindInv = true },
 		Opts: func(e *Engine, key string) VerifyOpts {
@@ -216,12 +216,13 @@ func init() {
 			"scope: the IR side of the property for the JSON Schema front end only - a default/constant/enum value decoded by the schema library (json.Number for numbers) enters the IR as the Go number it denotes: unwrapJSONNumber(s) under contract (never returns a json.Number, leaves other values alone) plus def-use obligations over go/ssa that every library value reaching ast.Default / ast.Value / Type.Default / ScalarType.Value / EnumValue.Value in a walker that can hold numbers passes through it (walkString and walkBool are exempt)",
 			"OpenAPI front end: functional contracts on the walkers (the default of a string / number / integer / boolean / array / enum schema and every enum member value enter the IR as the very value the library decoded)",
 			"CUE front end: the CUE library is opaque to the engine; only structural obligations are claimed - in cueConcreteToScalar every list element / struct field the iterator yields is converted and recorded (no path back to the loop head skips the append / the map store), and every default handed to the IR in package simplecue comes from extractDefault / cueConcreteToScalar through extracts and phis only (no function is applied to it on the way)",
-			"NOT covered (generated-program behaviour, outside this technique): what the Go and Python default constructors print, agreement between the two languages, the rest of the CUE front end, passes that move defaults",
+			"passes that move or carry a default: disjunction_with_constant_to_default under a functional contract (`T | constant` in either order comes back as T with the constant's value as Default; any other union as it was); anonymous_structs_to_named (the reference that replaces a struct keeps its Default); passes that rebuild types through functional options (disjunction_to_type, disjunction_of_constants_to_enum, ...) are not covered: the engine has no model of ast.TypeOption closures",
+			"NOT covered (generated-program behaviour, outside this technique): what the Go and Python default constructors print, agreement between the two languages, the rest of the CUE front end",
 			"encoding/json.Number.Int64/Float64/String are assumed total functions returning values of the stated Go types",
 		},
 	}
 	// the partial claim on Visitor.VisitSchema (see its contract): only the at-call obligations
-	for _, id := range []string{"C05", "C06", "C15"} {
+	for _, id := range []string{"C05", "C06", "C15", "C10"} {
 		ps := propSpecs[id]
 		prev := ps.Opts
 		ps.Opts = func(e *Engine, key string) VerifyOpts {
